@@ -7,7 +7,7 @@ arbitrary bytes} x chunkings x legal interleavings (the hand-over protocol: on D
 re-offer the unconsumed rest); library vs model on the projection (rc, consumed, states, #tx, callback sequence);
 extracted oracle chk_C16 on the library's output; ground truth: with a refused CONNECT or a 2xx tunnel carrying
 plain HTTP, every following request is reported exactly once, with its own URI (no byte skipped or parsed twice)."""
-import json
+import json, re
 import vf, sconnp, connp_props as cp
 
 PROP = "C16"
@@ -22,7 +22,8 @@ def scenarios(ctx, n):
     rng = ctx.rng
     out, truth = [], []
     for _ in range(n):
-        cfg = sconnp.cfg_str(p=rng.choice([0, 1, 2, 5, 9]))
+        auto = 1 if rng.random() < 0.3 else 0      # streaming mode: transactions are destroyed at TRANSACTION_COMPLETE
+        cfg = sconnp.cfg_str(p=rng.choice([0, 1, 2, 5, 9]), auto=auto)
         host = rng.choice([b"a:443", b"example.com:8443", b"[::1]:443", b"h"])
         head = b"CONNECT " + host + b" HTTP/1.1\r\nHost: " + host + b"\r\n" + rng.choice([b"", b"Proxy-Authorization: Basic eDp5\r\n"]) + b"\r\n"
         status = rng.choice([200, 200, 201, 299, 101, 407, 403, 404, 500, 502, 300, 199])
@@ -78,12 +79,9 @@ def scenarios(ctx, n):
                 ops.append("S" + piece.hex())
         # re-offer / continue the request stream after the response (the driver cannot react to DATA_OTHER inside a static
         # case, so the unconsumed rest is re-offered in full: with glue the CONNECT head was consumed and `follow` was not)
-        if kind == "bytes" and 200 <= status <= 299 and glue and rng.random() < 0.5:
-            # the server speaks first inside the tunnel (e.g. an SMTP greeting) while the client's bytes are still waiting to be re-offered:
-            # the response direction is fed twice more before the request direction runs again. (Only with client bytes waiting: when the
-            # client has sent nothing yet, the unchanged library parses the server's first tunnel bytes as a new response -- listed finding)
-            for sb in (b"220-greeting one\r\n", b"220 ready\r\n"):
-                ops.append("S" + sb.hex())
+        # (no server-first tunnel bytes in the generated histories: the response side has no tunnel decision of its own, so server bytes that
+        #  arrive before the request side has probed the client's first tunnel bytes are parsed as a response -- listed finding, replayed below
+        #  with and without client bytes waiting)
         rest = follow
         if rest:
             for piece in sconnp.cut(rest, sconnp.split_points(rest, rng, rng.choice(["whole", "random"]))):
@@ -96,7 +94,8 @@ def scenarios(ctx, n):
             ops.append("S" + bytes([4, 5]).hex())
         ops.append("C")
         out.append(sconnp.case(ops, cfg=cfg))
-        truth.append({"status": status, "kind": kind, "uris": [u.decode() for u in uris], "glue": glue, "connect": head.startswith(b"CONNECT")})
+        truth.append({"status": status, "kind": kind, "uris": [u.decode() for u in uris], "glue": glue, "connect": head.startswith(b"CONNECT"), "auto": auto,
+                      "delimited": (200 <= status <= 299) or b"Content-Length" in res})
     return out, truth
 
 
@@ -136,6 +135,9 @@ def check(ctx):
     # second listed finding: after an accepted CONNECT whose head came alone, tunnel bytes of the SERVER that arrive before any client byte are parsed as a response
     sw = sconnp.case(["O", "Q" + b"CONNECT h:25 HTTP/1.1\r\nHost: h:25\r\n\r\n".hex(), "S" + b"HTTP/1.1 200 OK\r\n\r\n".hex(), "S" + b"220 ready\r\n".hex()])
     swo, _ = sconnp.run_impl(ctx, [sw], tag="known2")
+    sw2 = sconnp.case(["O", "Q" + (b"CONNECT h:25 HTTP/1.1\r\nHost: h:25\r\n\r\n" + b"\x16\x03\x01\n").hex(), "S" + b"HTTP/1.1 200 OK\r\n\r\n".hex(), "S" + b"220 ready\r\n".hex()])
+    swo2, _ = sconnp.run_impl(ctx, [sw2], tag="known3")
+    ctx.cov["suites"]["S-connp"]["server_first_with_client_bytes_waiting_transactions"] = len(sconnp.tx_dumps(swo2[0])) if swo2 else None
     if "server-first-tunnel-data-parsed-as-response" in kf and swo and len(sconnp.tx_dumps(swo[0])) > 1:
         ctx.known.append("id=server-first-tunnel-data-parsed-as-response witness still exhibits it: %s" % kf["server-first-tunnel-data-parsed-as-response"]["what"][:200])
     failing = [i for i in failing if i not in known_hits]
@@ -154,16 +156,49 @@ def check(ctx):
         dumps = [d for d in sconnp.tx_dumps(impl[i]) if d != "N"]
         uris = [bytes.fromhex(sconnp.field(d, "u")).decode("latin1") if sconnp.field(d, "u") not in (None, "NULL", "-") else "" for d in dumps]
         keys.add((t["status"] // 100, t["kind"], t["glue"], len(dumps)))
+        # every transaction the caller ever saw: those alive at the end + (streaming mode) those dumped at TRANSACTION_COMPLETE
+        by_id = {}
+        for tx, d in re.findall(r"h18\.(\d+)\.(\{[^}]*\})", impl[i].split("||")[0]):
+            by_id[int(tx)] = d
+        for d in dumps:
+            if sconnp.field(d, "id") is not None:
+                by_id[int(sconnp.field(d, "id"))] = d
+        ntx_seen = len(by_id)
         if t["status"] == 101:
             # a 101 answer puts both directions into tunnel mode whatever follows: no further transaction
-            if len(dumps) != 1:
+            if ntx_seen != 1:
                 nbad += 1
                 if nbad <= 2:
-                    vf.violation(ctx, "tunnel101-%d" % i, {"kind": "transaction-created-after-101", "suite": "S-connp", "case": c, "transactions": len(dumps),
+                    vf.violation(ctx, "tunnel101-%d" % i, {"kind": "transaction-created-after-101", "suite": "S-connp", "case": c, "transactions": ntx_seen,
                                                           "implementation": impl[i][-2500:]})
         elif t["kind"] == "http":
             expect = t["uris"]
             got = uris[1:]          # transaction 0 is the CONNECT
+            if t.get("auto"):
+                # streaming mode: completed transactions are gone at the end; what the caller saw of them is the dump taken at
+                # TRANSACTION_COMPLETE; transactions still alive at the end are in the final dump
+                by_id = {}
+                for tx, d in re.findall(r"h18\.(\d+)\.(\{[^}]*\})", impl[i].split("||")[0]):
+                    by_id[int(tx)] = d
+                for d in dumps:
+                    if sconnp.field(d, "id") is not None:
+                        by_id[int(sconnp.field(d, "id"))] = d
+                dumps_f = [by_id[k] for k in sorted(by_id) if k != 0]
+                got = [bytes.fromhex(sconnp.field(d, "u")).decode("latin1") if sconnp.field(d, "u") not in (None, "NULL", "-") else "" for d in dumps_f]
+            else:
+                dumps_f = dumps[1:]
+            # normal parsing has resumed in BOTH directions: follow-up exchange k is complete, carries its own answer (X-Id: k) and no call failed
+            res_c = sconnp.split_ops(impl[i])
+            err = [k for k, x in enumerate(res_c) if sconnp.parse_op(x)[1][:1] == [3]]
+            ids = [(sconnp.field(d, "ssn"), ("582d4964:%s:" % str(k).encode().hex()) in d) for k, d in enumerate(dumps_f)]
+            paired = len(ids) == len(expect) and all(a == "200" and own for a, own in ids)
+            # (a refused CONNECT whose answer has no Content-Length has a body that runs to the end of the stream: nothing resumes on the response side)
+            if got == expect and t.get("delimited") and (err or not paired):
+                nbad += 1
+                if nbad <= 2:
+                    vf.violation(ctx, "resume-%d" % i, {"kind": "exchange-after-CONNECT-not-completed-normally", "suite": "S-connp", "case": c,
+                                                       "calls_returning_ERROR": err, "follow_up_transactions(status, carries_own_X-Id)": ids, "status": t["status"],
+                                                       "implementation": impl[i][-2500:]})
             if got != expect:
                 nbad += 1
                 if nbad <= 2:
@@ -182,10 +217,10 @@ def check(ctx):
                     if nbad <= 2:
                         vf.violation(ctx, "tunnel-close-%d" % i, {"kind": "closing-an-established-tunnel-runs-completion-callbacks", "suite": "S-connp", "case": c,
                                                                  "close_events": evs[:300], "implementation": impl[i][-2000:]})
-            if len(dumps) != 1:
+            if ntx_seen != 1:
                 nbad += 1
                 if nbad <= 2:
-                    vf.violation(ctx, "tunnel-tx-%d" % i, {"kind": "transaction-created-from-tunnel-payload", "suite": "S-connp", "case": c, "transactions": len(dumps),
+                    vf.violation(ctx, "tunnel-tx-%d" % i, {"kind": "transaction-created-from-tunnel-payload", "suite": "S-connp", "case": c, "transactions": ntx_seen,
                                                           "implementation": impl[i][-2500:]})
     pi = [sconnp.project(o, PROP) for o in impl]
     pm = [sconnp.project(o, PROP) for o in model]
